@@ -446,6 +446,12 @@ func GenFault(t *testing.T, r *rand.Rand, prop, tier string, progress *atomic.In
 		switch r.Intn(8) {
 		case 0, 1, 2:
 			o.Faults = []store.Fault{{Kind: "cancel", At: pos(anyK)}}
+			if prop == "C17" && r.Intn(2) == 0 {
+				// while a querier is open: between Querier() and its Close()
+				o.Faults[0].At = pos(func(k uint8) bool {
+					return k == store.KSelect || k == store.KSSNext || k == store.KSSAt || k == store.KSSErr || k == store.KLabels
+				})
+			}
 		case 3:
 			o.ClientCancelStep = d.Start + 1 + r.Intn(execSteps*2)
 		case 4:
